@@ -72,7 +72,7 @@ Print Assumptions c05_cut_resume_reported.
 Theorem c05_closed_with_error_only_by_resume : forall c e i, In (OStreamClosed i true) (snd (step c e)) ->
   exists s, find_s i (c_streams c) = Some s /\
     ((exists r, e = EResumeResp i r /\ s_phase s = SResuming /\
-                (r = RespRefused \/ s_held s <> c_gen c \/ c_wclosed c = true)) \/
+                (r = RespRefused \/ (r = RespConflict /\ s_down s = true /\ fix_f46 (c_cfg c) = false) \/ s_held s <> c_gen c \/ c_wclosed c = true)) \/
      (e = ESup i /\ s_phase s = SWaitConn /\ c_status c = Connected /\ writable c = false)).
 Proof. exact closed_with_error_only_by_resume. Qed.
 Print Assumptions c05_closed_with_error_only_by_resume.
@@ -126,8 +126,9 @@ Theorem c05_refused_only_that_stream : forall c i s r, c_up c = true -> c_wclose
   match r with
   | RespOk => snd (step c (EResumeResp i r)) = [OResumed i]
   | RespRefused => snd (step c (EResumeResp i r)) = [OCloseReq (c_gen c) i; OStreamClosed i true]
-  | RespConflict => snd (step c (EResumeResp i r)) = [OResumeReq (c_gen c) i (s_down s)] /\
-                    find_s i (c_streams (fst (step c (EResumeResp i r)))) = Some s
+  | RespConflict => snd (step c (EResumeResp i r)) =
+                      (if s_down s && negb (fix_f46 (c_cfg c)) then [OCloseReq (c_gen c) i; OStreamClosed i true]
+                       else [OResumeReq (c_gen c) i (s_down s)])
   end /\
   forall j, j <> i -> find_s j (c_streams (fst (step c (EResumeResp i r)))) = find_s j (c_streams c).
 Proof. exact resume_answer. Qed.
@@ -136,12 +137,39 @@ Print Assumptions c05_refused_only_that_stream.
 (* A stream is dropped only for a refusal the protocol makes FINAL: RESUME_REQUEST_CONFLICT (the broker
    still holds the old incarnation) is retried - the request is written again, the stream stays resuming,
    nothing is closed and no close request is sent; whatever an earlier attempt answered is forgotten when
-   a later attempt is accepted (c05_refused_only_that_stream gives the accepted / refused cases). *)
-Theorem c05_resume_conflict_retries : forall c i s, c_up c = true -> c_wclosed c = false ->
+   a later attempt is accepted (c05_refused_only_that_stream gives the accepted / refused cases).  Both
+   directions, after any history of the code as it is. *)
+Theorem c05_resume_conflict_retries : forall evs i s,
+  let c := fst (run (init faithful) evs) in
+  c_up c = true -> c_wclosed c = false ->
+  find_s i (c_streams c) = Some s -> s_phase s = SResuming -> s_held s = c_gen c ->
+  step c (EResumeResp i RespConflict) = (c, [OResumeReq (c_gen c) i (s_down s)]).
+Proof. exact resume_conflict_retries_now. Qed.
+Print Assumptions c05_resume_conflict_retries.
+
+Theorem c05_resume_conflict_retries_any_state : forall c i s, fix_f46 (c_cfg c) = true -> c_up c = true -> c_wclosed c = false ->
   find_s i (c_streams c) = Some s -> s_phase s = SResuming -> s_held s = c_gen c ->
   step c (EResumeResp i RespConflict) = (c, [OResumeReq (c_gen c) i (s_down s)]).
 Proof. exact resume_conflict_retries. Qed.
-Print Assumptions c05_resume_conflict_retries.
+Print Assumptions c05_resume_conflict_retries_any_state.
+
+(* both directions, end to end: a downstream answered conflict, then accepted, is resumed and working *)
+Theorem c05_downstream_conflict_retried :
+  let r := run (init faithful) [EStart 0 KOpenDown; EWake 0; EResp 0; ELinkDown; EDetect; ELoop; EWatch 0; EDial true;
+                                ESup 0; EResumeResp 0 RespConflict; EResumeResp 0 RespOk] in
+  sclosed_of (snd r) = [] /\ finals_of (fst r) = [(0, 0)] /\ resumereqs_of (snd r) = [(1, 0, true); (1, 0, true)].
+Proof. exact downstream_conflict_retried_now. Qed.
+Print Assumptions c05_downstream_conflict_retried.
+
+(* FORMER code (before 110718a, finding F46 - fixed): for a DOWNSTREAM the second attempt of
+   Downstream.resume subscribed the alias again on the same wire connection ("already subscribed") and the
+   stream was closed with that error - a non-final answer dropped the stream. *)
+Theorem c05_downstream_conflict_former_refuted :
+  let r := run (init former) [EStart 0 KOpenDown; EWake 0; EResp 0; ELinkDown; EDetect; ELoop; EWatch 0; EDial true;
+                              ESup 0; EResumeResp 0 RespConflict] in
+  sclosed_of (snd r) = [(0, true)] /\ finals_of (fst r) = [(0, 2)].
+Proof. exact downstream_conflict_closes. Qed.
+Print Assumptions c05_downstream_conflict_former_refuted.
 
 (* The closed-with-error (and every other) notification is DELIVERED, not just queued: the stream's
    dispatcher (event_dispatcher.go) looks at its context only while its queue is empty, so for every
